@@ -82,6 +82,7 @@ func (v *Composite) distributeLines(remLines int) map[int]int {
 		}
 
 		lineCnts[i]++
+		remLines--
 		diffs[i]--
 		if diffs[i] == 0 {
 			positiveDiffs--
